@@ -432,6 +432,9 @@ func (pc *PathCtx) flush(in *Interp) {
 		found := false
 		for k := range pc.lits {
 			l := &pc.lits[k]
+			if pc.termHasUF(l.t) {
+				continue // cannot be evaluated without the solver's interpretation
+			}
 			if ts.Eval(l.t, pc.altModel, memo, ufEval) != 0 {
 				continue
 			}
